@@ -75,6 +75,10 @@ def drive(tier):
              ("error-nondict-emptydict", 0), ("error-nondict-zero", 0), ("error-nondict-false", 0),
              ("error-nondict-emptystring", 0), ("error-nondict-emptylist", 0), ("non-json-empty", 0)]
 
+    # an error object without a code right after each registered code (nothing of one reply survives into the next)
+    for c in (-5, -8, -25, -28):
+        kinds += [("error-code", c), ("error-nocode", 0), ("error-code", c), ("error-nondict-emptydict", 0), ("error-code", c), ("missing-result", 0)]
+
     def reply_for(kind, code, result_json):
         if kind == "result":
             return ('{"result": %s, "error": null, "id": 1}' % result_json).encode()
